@@ -181,9 +181,19 @@ def judge(obs, cfg, mode, point, ref, got, stages, types, udir, all_chains=False
     stage_end = next(b for b in bounds if it < b)
     done = {(x["tag"], x["iter"]) for x in got["recs"] if x["kind"] == "end"}
     started = {(x["tag"], x["iter"]) for x in got["recs"] if x["kind"] == "start"}
+    signal_mode = mode in ("par-signal", "par-signal-parent")
     if any(i >= stage_end for (_t, i) in started):
+        if signal_mode:
+            # a real signal is handled when the receiving process next runs Python code: on a loaded machine the parent can
+            # be descheduled long enough for the workers to finish a short stage first. When the interrupt took effect is
+            # not observable from outside, so this is not a verdict (the injected modes decide this clause exactly).
+            obs.inconc("signal-took-effect-after-the-stage-ended")
+            return
         obs.violation(f"later-stage-started:{mode}", f"iterations of a later stage ran after the interrupt; {where}")
     if fn != "trace" and (tag, it) in done and mode != "par-signal-parent":
+        if signal_mode:
+            obs.inconc("signal-took-effect-after-the-iteration-ended")
+            return
         obs.violation(f"interrupt-not-delivered:{mode}", f"the interrupted iteration completed; {where}")
     n_chain = cfg["n_chain"]
     lenient = {(tag, it)} | (started - done)
